@@ -136,7 +136,7 @@ func fullDump(c *Cli) string {
 }
 
 func checkC03(job *Job, res *Result) {
-	res.Rule = "SEQ+FAULT: BFS over histories of data-modifying commands (keyspace, hooks/channels, scripts, expiry by virtual-time advance) deduplicated on the reference model; per edge: logged-iff-changed, clean restart equivalence, and recovery from the directory as of EVERY file-operation boundary of the last command and of the shutdown, plus a crash inside the append of the last command (all but its last byte written) followed by a restart, one short write and another restart; distinct = distinct (state after, crash index class) observations"
+	res.Rule = "SEQ+FAULT: BFS over histories of data-modifying commands (keyspace, hooks/channels, scripts, expiry by virtual-time advance) deduplicated on the reference model; per edge: logged-iff-changed, clean restart equivalence, and recovery from the directory as of EVERY file-operation boundary of the last command and of the shutdown, plus a crash inside the append of the last command (all but its last byte written) followed by a restart, one short write and another restart; plus logs of 80 / 180 KiB restarted three times without a crash, with and without a read-only AOFMD5 and a write in between; distinct = distinct (state after, crash index class) observations"
 	res.Assumptions = append(res.Assumptions,
 		"a process kill leaves exactly the completed file operations; torn writes are C04, power loss is outside the property",
 		"backgroundExpiring and backgroundSyncAOF run (virtual time); other polling loops frozen: they do not touch the dataset or the log",
@@ -307,6 +307,9 @@ func checkC03(job *Job, res *Result) {
 			res.Sample(map[string]any{"history": full, "model_state_after": e.Dst})
 		}
 	})
+	if job.Shard == 0 && job.Replay == nil {
+		c03LargeLog(job, res)
+	}
 	res.Transitions += nEdges
 	res.Evaluations += nEdges + nCrash
 	res.Validated += nEdges
@@ -323,4 +326,62 @@ func opDesc(k int) string {
 	}
 	o := vos.Log[k-1]
 	return fmt.Sprintf("%s %s", o.Kind, filepath.Base(o.Name+o.Name2))
+}
+
+// c03LargeLog: logs longer than the loader's 64 KiB read block (a block boundary
+// falls inside a command), restarted three times without any crash: the dataset
+// and the log file stay what they were, and a read-only AOFMD5 in between
+// changes nothing either.
+func c03LargeLog(job *Job, res *Result) {
+	for _, n := range []int{1100, 2500} {
+		for _, md5 := range []bool{false, true} {
+			n, md5 := n, md5
+			viol := func(sig, detail string) {
+				res.Violate("C03/large-log:"+sig, fmt.Sprintf("%s  [%d SETs, AOFMD5 in between: %v]", detail, n, md5), map[string]any{"large_log": n, "aofmd5": md5})
+			}
+			x := runExec(job, freezeAllBut("backgroundSyncAOF"), func(x *Exec) {
+				dir := x.dir + "/L"
+				aof := filepath.Clean(filepath.Join(dir, "appendonly.aof"))
+				in := x.Start("L", dir, 9001, nil)
+				c := x.Dial(in.Addr)
+				for i := 0; i < n; i++ {
+					c.Do("SET", "big", fmt.Sprintf("object-number-%05d", i), "FIELD", "f", fmt.Sprint(i), "POINT", fmt.Sprint(i%90), fmt.Sprint(i%180))
+				}
+				want := fullDump(c)
+				c.Close()
+				in.Stop()
+				size0 := len(vos.Image(len(vos.Log))[aof])
+				for life := 1; life <= 3; life++ {
+					inN, err := x.TryStart(fmt.Sprintf("L%d", life), dir, 9001+life, nil)
+					if err != nil {
+						viol("restart-fails", fmt.Sprintf("restart %d of an intact %d-byte log fails: %v", life, size0, err))
+						return
+					}
+					cn := x.Dial(inN.Addr)
+					if got := fullDump(cn); got != want {
+						viol("restart-differs", fmt.Sprintf("after restart %d the dataset differs (%d vs %d bytes of dump)", life, len(got), len(want)))
+					}
+					if md5 {
+						// a read-only look at the middle of the log, then one more write
+						if r := cn.Do("AOFMD5", "100", "1000"); r.IsErr() {
+							viol("aofmd5", "AOFMD5 100 1000 replied "+r.String())
+						}
+						cn.Do("SET", "big", fmt.Sprintf("after-md5-%d", life), "POINT", "1", "1")
+						want = fullDump(cn)
+					}
+					cn.Close()
+					inN.Stop()
+					size := len(vos.Image(len(vos.Log))[aof])
+					if !md5 && size != size0 {
+						viol("file-changed-by-clean-restart", fmt.Sprintf("the log held %d bytes, after restart %d (no write in between) it holds %d", size0, life, size))
+					}
+					res.Evaluations++
+					res.DistinctS(fmt.Sprint("largelog", n, md5, life))
+				}
+			})
+			if x.Err != "" || len(x.Crashes) > 0 {
+				viol("hang-or-crash", fmt.Sprint(x.Err, x.Crashes))
+			}
+		}
+	}
 }
